@@ -1,6 +1,7 @@
 // Command harness runs the conformance drivers. Usage: harness <driver> [flags].
-// Every driver prints one JSON Summary on stdout; exit status 0 = ran to
+// Every driver prints one JSON summary on stdout; exit status 0 = ran to
 // completion (verdicts come from TLC on the recorded traces), 2 = could not run.
+// Drivers are registered by the drv_*.go files of this directory.
 package main
 
 import (
@@ -9,49 +10,40 @@ import (
 	"fmt"
 	"os"
 	"runtime"
+	"strings"
 
-	"github.com/buzzfeed/sso/verifharness/cb"
-	"github.com/buzzfeed/sso/verifharness/ps"
-	"github.com/buzzfeed/sso/verifharness/sf"
+	"github.com/buzzfeed/sso/verifharness/reg"
 )
 
 func main() {
 	if len(os.Args) < 2 {
-		fmt.Fprintln(os.Stderr, "usage: harness <driver> [flags]")
+		fmt.Fprintln(os.Stderr, "usage: harness <driver> [flags]; drivers:", strings.Join(reg.Names(), " "))
 		os.Exit(2)
 	}
 	drv := os.Args[1]
 	fs := flag.NewFlagSet(drv, flag.ExitOnError)
-	in := fs.String("in", "", "input file (cells / behaviours from TLC)")
-	out := fs.String("out", "", "output ndjson trace")
-	seed := fs.Int64("seed", 1, "seed")
-	sample := fs.Int("sample", 0, "number of cells to sample (0 = all)")
-	reps := fs.Int("reps", 1, "concretisations per cell")
-	n := fs.Int("n", 0, "driver-specific count")
-	steps := fs.Int("steps", 0, "driver-specific length")
-	workers := fs.Int("workers", runtime.NumCPU(), "parallel fixtures")
-	base := fs.Int("base", 0, "first case number (replay)")
-	only := fs.Int("only", -1, "run only this history / behaviour (replay)")
-	noshuffle := fs.Bool("noshuffle", false, "keep input order")
-	target := fs.String("target", "", "driver-specific target (replay)")
+	var a reg.Args
+	fs.StringVar(&a.In, "in", "", "input file (cells / behaviours from TLC)")
+	fs.StringVar(&a.Out, "out", "", "output ndjson trace")
+	fs.Int64Var(&a.Seed, "seed", 1, "seed")
+	fs.IntVar(&a.Sample, "sample", 0, "number of cells / behaviours to sample (0 = all)")
+	fs.IntVar(&a.Reps, "reps", 1, "concretisations per cell")
+	fs.IntVar(&a.N, "n", 0, "driver-specific count")
+	fs.IntVar(&a.Steps, "steps", 0, "driver-specific length")
+	fs.IntVar(&a.Workers, "workers", runtime.NumCPU(), "parallel fixtures")
+	fs.IntVar(&a.Base, "base", 0, "first case number (replay)")
+	fs.IntVar(&a.Only, "only", -1, "run only this history / behaviour (replay)")
+	fs.BoolVar(&a.NoShuffle, "noshuffle", false, "keep input order")
+	fs.StringVar(&a.Target, "target", "", "driver-specific target (replay)")
+	fs.StringVar(&a.Tier, "tier", "quick", "quick | thorough")
 	fs.Parse(os.Args[2:])
-	_ = n
-	_ = steps
 
-	var sum interface{}
-	var err error
-	switch drv {
-	case "ps-cells":
-		sum, err = ps.RunCells(*in, *out, *seed, *sample, *reps, *workers, *base, *noshuffle)
-	case "ps-hist":
-		sum, err = ps.RunHistories(*out, *seed, *n, *steps, *workers, *only)
-	case "cb-replay":
-		sum, err = cb.RunReplay(*in, *out, *seed, *sample, *workers, *only)
-	case "sf-replay":
-		sum, err = sf.RunReplay(*in, *out, *seed, *sample, *reps, *workers, *only, *target)
-	default:
-		err = fmt.Errorf("unknown driver %q", drv)
+	f, ok := reg.Get(drv)
+	if !ok {
+		fmt.Fprintf(os.Stderr, "harness: unknown driver %q (have: %s)\n", drv, strings.Join(reg.Names(), " "))
+		os.Exit(2)
 	}
+	sum, err := f(a)
 	if err != nil {
 		fmt.Fprintln(os.Stderr, "harness:", err)
 		os.Exit(2)
